@@ -32,6 +32,7 @@ type mgmtState struct {
 	deletedIDs map[uint32]string // internal dataset ids of deleted incarnations
 	stale      map[string][]*server.Dataset // handles of deleted datasets, by the name they had
 	everNames  map[string]bool
+	pubNS      map[string]bool // dataset name -> created with a publicNamespaces setting
 	sharedHit  bool
 }
 
@@ -97,7 +98,12 @@ func genMgmtCase(r *rand.Rand) SDCase {
 				tags["recreate"] = true
 			}
 			live[nm] = true
-			c.Ops = append(c.Ops, SDOp{Kind: "create", DS: nm})
+			op := SDOp{Kind: "create", DS: nm}
+			if r.Intn(3) == 0 {
+				op.To = "pubns" // created with a publicNamespaces setting
+				tags["public-namespaces"] = true
+			}
+			c.Ops = append(c.Ops, op)
 		case k < 78 && len(ll) > 0:
 			nm := ll[r.Intn(len(ll))]
 			live[nm] = false
@@ -231,11 +237,19 @@ func runMgmtCase(ctx *Ctx, c SDCase) {
 func (s *sdRun) applyMgmt(op SDOp) error {
 	switch op.Kind {
 	case "create":
-		if _, err := s.core.Dsm.CreateDataset(op.DS, nil); err != nil {
+		var cfg *server.CreateDatasetConfig
+		if op.To == "pubns" {
+			cfg = &server.CreateDatasetConfig{PublicNamespaces: []string{gen.NsA, gen.NsP}}
+		}
+		if _, err := s.core.Dsm.CreateDataset(op.DS, cfg); err != nil {
 			return err
 		}
 		s.m.Create(op.DS)
 		s.mg.everNames[op.DS] = true
+		if s.mg.pubNS == nil {
+			s.mg.pubNS = map[string]bool{}
+		}
+		s.mg.pubNS[op.DS] = op.To == "pubns"
 	case "stalewrite":
 		hs := s.mg.stale[op.DS]
 		if len(hs) == 0 {
@@ -271,6 +285,10 @@ func (s *sdRun) applyMgmt(op SDOp) error {
 			return err
 		}
 		s.m.Rename(op.DS, op.To)
+		if s.mg.pubNS != nil {
+			s.mg.pubNS[op.To] = s.mg.pubNS[op.DS]
+			delete(s.mg.pubNS, op.DS)
+		}
 		s.rec[op.To] = s.rec[op.DS]
 		delete(s.rec, op.DS)
 		s.mg.everNames[op.To] = true
@@ -531,6 +549,17 @@ func (s *sdRun) checkC19() {
 			liveMeta[name] = append(liveMeta[name], m)
 		}
 	}
+	// the dataset list agrees with the datasets that exist
+	var listed []string
+	for _, n := range s.core.Dsm.GetDatasetNames() {
+		if n.Name != "core.Dataset" {
+			listed = append(listed, n.Name)
+		}
+	}
+	sort.Strings(listed)
+	if strings.Join(listed, ",") != strings.Join(s.dsNames(), ",") {
+		s.viol("C19", "catalogue", "the dataset list differs from the datasets that exist", s.dsNames(), listed)
+	}
 	for _, n := range s.dsNames() {
 		ms := liveMeta[n]
 		if len(ms) != 1 {
@@ -540,6 +569,14 @@ func (s *sdRun) checkC19() {
 		m := ms[0]
 		if nm, _ := m.Props[ns+"name"].(string); nm != n {
 			s.viol("C19", "meta-entity-name", fmt.Sprintf("meta-entity of %s carries name %v", n, m.Props[ns+"name"]), n, m.Props[ns+"name"])
+		}
+		// public-namespace setting carried by the meta-entity and by the dataset itself
+		_, hasPub := m.Props[ns+"publicNamespaces"]
+		if s.mg.pubNS != nil && hasPub != s.mg.pubNS[n] {
+			s.viol("C19", "meta-entity-settings", fmt.Sprintf("dataset %s: publicNamespaces setting configured=%v, carried by its meta-entity=%v", n, s.mg.pubNS[n], hasPub), s.mg.pubNS[n], hasPub)
+		}
+		if d := s.core.Dsm.GetDataset(n); d != nil && s.mg.pubNS != nil && (len(d.PublicNamespaces) > 0) != s.mg.pubNS[n] {
+			s.viol("C19", "dataset-settings", fmt.Sprintf("dataset %s: publicNamespaces setting configured=%v, dataset carries %v", n, s.mg.pubNS[n], d.PublicNamespaces), s.mg.pubNS[n], d.PublicNamespaces)
 		}
 		items, _ := m.Props[ns+"items"].(float64)
 		want := len(s.m.Live(n).Ids)
